@@ -75,6 +75,43 @@ theorem c12_split (env : Env) :
           | halted h => simp
           | rejected e => simp
 
+/-- a node that is torn down and re-created from its persisted state (application state and CometBFT's validator
+    set — all the model's `block` reads) after each segment of blocks: the next segment starts from the last
+    committed step of the previous one -/
+def runSegs (env : Env) : App → CSet → List (List Block) → List Step × RunEnd
+  | _, _, [] => ([], .done)
+  | s, c, seg :: rest =>
+    match runFrom env s c seg with
+    | (steps, .done) =>
+      (match steps.getLast? with
+       | some st => let r := runSegs env st.app st.comet rest; (steps ++ r.1, r.2)
+       | none => runSegs env s c rest)
+    | (steps, e) => (steps, e)
+
+/-- **C12c** (any number of restarts, at any subset of commit boundaries): cutting a history into any number of
+    segments of any lengths (empty ones included — a restart straight after a restart) and restarting between
+    them gives, step for step, the results, update lists and states of the uninterrupted run -/
+theorem c12_restarts (env : Env) :
+    ∀ (segs : List (List Block)) (s : App) (c : CSet), runSegs env s c segs = runFrom env s c segs.flatten
+  | [], s, c => by simp [runSegs, runFrom]
+  | seg :: rest, s, c => by
+    simp only [runSegs, List.flatten_cons]
+    rw [c12_split env seg rest.flatten s c]
+    cases hr : runFrom env s c seg with
+    | mk steps e =>
+      cases e with
+      | done =>
+        simp only
+        cases hl : steps.getLast? with
+        | none => simp only; exact c12_restarts env rest s c
+        | some st => simp only; rw [c12_restarts env rest st.app st.comet]
+      | halted h => rfl
+      | rejected e => rfl
+
+/-- non-vacuity of the segmentation: three restarts, one of them immediately after another -/
+example (env : Env) (s : App) (c : CSet) (b1 b2 b3 : Block) :
+    runSegs env s c [[b1], [], [b2, b3], []] = runFrom env s c [b1, b2, b3] := c12_restarts env _ s c
+
 /-- **C12b** (determinism): the run is a function — two executions of the same blocks from the same genesis give
     identical results, update lists (order included) and states -/
 theorem c12_deterministic (env : Env) (g : Genesis) (bs : List Block) : run env g bs = run env g bs := rfl
